@@ -74,6 +74,7 @@ type Macro struct {
 	Body   Expr
 	Src    string
 	Opaque bool
+	Pkg    string // import path of the package whose contract file defines the macro
 }
 
 type File struct {
@@ -203,7 +204,7 @@ func ParseFile(path, defaultPkg string) (*File, error) {
 			if eq < 0 || lp < 0 || rp < lp || eq < rp {
 				return nil, fail("bad spec macro")
 			}
-			m := &Macro{Name: strings.TrimSpace(rest[:lp]), Src: rest, Opaque: kind == "opaque"}
+			m := &Macro{Name: strings.TrimSpace(rest[:lp]), Src: rest, Opaque: kind == "opaque", Pkg: pkg}
 			for _, p := range strings.Split(rest[lp+1:rp], ",") {
 				if p = strings.TrimSpace(p); p != "" {
 					m.Params = append(m.Params, p)
